@@ -163,6 +163,11 @@ int main(int argc, char **argv) {
     for (int i = 0; i < NIN; i++) fill_differential(&IN[i], 7, r);
     encode_under_faults(r);
     crypt_under_faults(r);
+    /* the remaining calls (keygen, store, getters, free) with a refusing allocator: same results as without */
+    { rseed base; memset(&base, 0, sizeof base); for (int i = 0; i < 19; i++) base.secret[i] = (uint8_t)(0x21 + 5 * i); base.secret[18] &= 0x3F; base.birthday = 500; base.features = 16 | 4;
+      polyseed_data *s = seed_from_ref(&base); obs o0, o1; observe(s, 99, &o0); env_clear_log(); E.fail_at = 0; observe(s, 99, &o1); long asked = E.alloc_seq; E.fail_at = -1; r->cases++; r->calls += 30;
+      if (!obs_eq(&o0, &o1)) res_viol(r, "c15:queries-under-fault", "", "store / getters / keygen / encode give different results when the allocator refuses (requests made: %ld)", asked); else r->validated++;
+      E.fail_at = 0; polyseed_free(s); E.fail_at = -1; if (ledger_live()) { res_viol(r, "c15:free-under-fault", "", "polyseed_free with a refusing allocator left the block allocated"); ledger_drop_all(); } }
     int triples = 0; for (int k = 0; k < 4; k++) for (int s = 0; s < 8; s++) for (int f = 0; f < 3; f++) triples += seen[k][s][f];
     res_sample(r, "%d inputs (one per entry point x outcome class) x masks {0,5,7} x fail_at {none,0,1} x {injected, libc} allocator; e.g. \"%s\"", NIN, IN[NIN - 1].name);
     out_begin(); out_part("entry points x outcome classes x failing allocation request", r, CLS, ""); out_kv_int("fault_distinct_triples", triples); out_kv_int("fault_inputs", NIN); out_kv_int("max_allocation_requests_per_call", MAX_REQUESTS); out_end();
